@@ -476,6 +476,16 @@ def eval_misc(case):
                     z.parse_from_string(text)
                     if (z.get_type(), z.get_val()) != (atype, val):
                         bad(f'{case[1]}/parse_from_string', f'{text!r} -> {z.get_type()}:{z.get_val()!r}')
+                    # a rejected text leaves the tuple as it was (and still decodable from its own encoding)
+                    for rejected in ('no-such-type:blue', 'no-separator'):
+                        try:
+                            z.parse_from_string(rejected)
+                            bad(f'{case[1]}/parse_from_string-accepts', f'{rejected!r} accepted')
+                        except Exception:
+                            pass
+                        if (z.get_type(), z.get_val()) != (atype, val) or z.get_as_string() != text:
+                            bad(f'{case[1]}/rejected-parse-mutates', f'after rejecting {rejected!r} the tuple reads {z.get_as_string()!r}, was {text!r}')
+                            break
                     if (x.get_type(), x.get_val()) != (atype, val):
                         bad(f'{case[1]}/encode-mutates', 'changed by get_as_string')
                 xi = cls(atype=atype, aval=10)
